@@ -208,10 +208,19 @@ static void runSeq(std::istringstream& is, const char* cfgName)
 		Table table(Cfg::make(&st));
 		rowSize = Cfg::rowSize(table); blockSize = table.mRawMemPool.GetBlockSize(); blockCount = Table::RawMemPool::Params::blockCount;
 		Ids ids; std::vector<Row> det; size_t created = 0; std::string op;
+		const Row* extraObj = nullptr;       // a temporary Row object to be shown after the detached slots
+		auto objState = [&] (const Row& r) {  // the three members of the Row object, byte for byte (canonicalised)
+			std::string s = r.mRaw == nullptr ? "-" : std::to_string(ids.of(r.mRaw));
+			s += r.mFreeRaws == &table.mCrew.mData->freeRaws ? ":T" : r.mFreeRaws == nullptr ? ":0" : ":?";
+			s += r.mColumnList == &table.GetColumnList() ? "" : "!cl";
+			return s;
+		};
 		auto emit = [&] (const std::string& ev) {
 			if (!first) out << ' '; first = false;
 			out << ev << "|fl=" << freeList(table, ids, created + 1) << "|pc=" << table.mRawMemPool.GetAllocateCount()
-				<< "|lv=" << (Tracked::live.load() - live0);
+				<< "|lv=" << (Tracked::live.load() - live0) << "|ro=";
+			for (size_t i = 0; i < det.size(); ++i) out << (i ? "," : "") << objState(det[i]);
+			if (extraObj != nullptr) out << (det.empty() ? "" : ",") << objState(*extraObj);
 		};
 		auto S = [] (int id) { return std::to_string(id); };
 		while (is >> op)
@@ -246,7 +255,7 @@ static void runSeq(std::istringstream& is, const char* cfgName)
 				size_t pos = k % table.GetCount(); k = j % det.size();
 				int oldId = ids.of(table[pos].GetRaw()), id = ids.of(det[k].GetRaw());
 				auto res = table.TryUpdate(pos, std::move(det[k]));
-				if (res) { det.erase(det.begin() + k); emit("R" + S(oldId)); emit("A" + S(id)); }
+				if (res) { det.erase(det.begin() + k); emit("P" + S(oldId) + "," + S(id)); }
 				else emit("U" + S(id));
 			}
 			else if ((c == 'x' || c == 'z') && table.GetCount() > 0)
@@ -274,21 +283,26 @@ static void runSeq(std::istringstream& is, const char* cfgName)
 			else if (c == 'm' && !det.empty())
 			{
 				k %= det.size(); int id = ids.of(det[k].GetRaw());
-				{ Row moved(std::move(det[k])); det[k] = std::move(moved); }   // move-assign INTO a moved-from object; two empty destructors
-				emit("M" + S(id));
+				{
+					Row moved(std::move(det[k]));                 // the slot is now a moved-from object
+					extraObj = &moved; emit("O" + S(k)); extraObj = nullptr;
+					det[k] = std::move(moved);                    // move-assign INTO a moved-from object; two empty destructors
+				}
+				emit("M" + S(k));
 			}
 			else if (c == 'w' && det.size() > 1 && k % det.size() != j % det.size())
 			{
 				k %= det.size(); j %= det.size(); int oldId = ids.of(det[k].GetRaw());
-				det[k] = std::move(det[j]);       // the old row of #k dies inside the assignment: a push
+				det[k] = std::move(det[j]);       // the old row of #k dies INSIDE the assignment: a push; #j is now a moved-from object
+				emit("W" + S(oldId) + "," + std::to_string(k) + "," + std::to_string(j));
 				det.erase(det.begin() + j);
-				emit("D" + S(oldId));
+				emit("H" + std::to_string(j));
 			}
 			else if (c == 'y' && det.size() > 1)
 			{
 				k %= det.size(); j %= det.size();
-				if (k != j) { using std::swap; swap(det[k], det[j]); det[k].Swap(det[j]); det[j].Swap(det[k]); }
-				emit("M" + S(ids.of(det[k].GetRaw())));
+				if (k != j) { using std::swap; swap(det[k], det[j]); det[k].Swap(det[j]); det[j].Swap(det[k]); emit("Y" + std::to_string(k) + "," + std::to_string(j)); }
+				else emit("-");
 			}
 			else if (c == 's' && !det.empty())
 			{
